@@ -117,5 +117,28 @@ def run(ctx):
     res.check(bool(calls) and all(norm(c.func.value) == "hypergraph" for c in calls), "D-SUB", v.fi.short, norm(calls[0]) if calls else "hypergraph.adjacency_matrix()", "adjacency", "the centrality is not computed from the adjacency matrix of the given hypergraph", loc(v.fi, v.fi.node))
     txt = norm(v.fi.node)
     res.check("eigh" in txt and "logsumexp" in txt, "D-SUB", v.fi.short, "np.linalg.eigh / special.logsumexp", "functional", "the log of the diagonal of exp(A) is not computed through the eigendecomposition / logsumexp", loc(v.fi, v.fi.node))
+    # ---- D-LABELIDX: the eigenvector centralities index their vectors by label (exemption) - the returned dict must
+    # pair each label with the entry at THAT label, not with the entry at its insertion position
+    res.rules["D-LABELIDX"] = "CEC / ZEC / HEC return {node: x[node]} (or an equivalent pairing in label order), never labels zipped with a vector in insertion order"
+    for name in ("CEC_centrality", "ZEC_centrality", "HEC_centrality"):
+        v = ctx.view(f"eigen_centralities.{name}")
+        rets = [n for n in ast.walk(v.fi.node) if isinstance(n, ast.Return) and n.value is not None]
+        for r in rets:
+            e = r.value
+            ok = None
+            if isinstance(e, ast.DictComp) and isinstance(e.value, ast.Subscript):
+                ok = norm(e.key) == norm(e.value.slice)
+            elif isinstance(e, ast.Call) and norm(e.func) == "dict" and e.args and isinstance(e.args[0], ast.Call) and norm(e.args[0].func) == "zip":
+                first = e.args[0].args[0] if e.args[0].args else None
+                src = first
+                if isinstance(first, ast.Name):
+                    defs = [m.value for m in ast.walk(v.fi.node) if isinstance(m, ast.Assign) and isinstance(m.targets[0], ast.Name) and m.targets[0].id == first.id]
+                    src = defs[-1] if defs else first
+                txt = norm(src) if src is not None else ""
+                ok = txt.startswith("range(") or txt.startswith("sorted(")
+            if ok is None:
+                res.unknown("D-LABELIDX", v.fi.short, norm(r), "pairing", "unrecognised construction of the result", loc(v.fi, r))
+            else:
+                res.check(ok, "D-LABELIDX", v.fi.short, norm(r), "pairing", "labels are paired with vector entries by position in get_nodes() (insertion order) although the vector is indexed by label: scores land on the wrong nodes unless nodes were inserted in increasing order", loc(v.fi, r))
     res.assumptions += ["CEC / ZEC / HEC / apply index by node label (one-symbol exemptions: the property restricts them to hypergraphs labelled 0..N-1)", "networkx functionals are trusted"]
     return res
